@@ -165,12 +165,16 @@ func checkOffsetsAndLengths(p *Program, r *Result, isSink func(ssa.CallInstructi
 	// in-chunk message offsets: idx.Add(m.LogTime, compressedWriter.Size()) immediately before the message record
 	if fn := p.lookupFunc(pkgMcap, "Writer.WriteMessage"); fn != nil {
 		n := 0
-		for _, ci := range callsIn(fn, func(ci ssa.CallInstruction) bool { return calleeRepoName(ci) == "mcap.MessageIndex.Add" }) {
+		var adds []ssa.CallInstruction
+		for _, rf := range regionOf(p, fn, 3) {
+			adds = append(adds, callsIn(rf, func(ci ssa.CallInstruction) bool { return calleeRepoName(ci) == "mcap.MessageIndex.Add" })...)
+		}
+		for _, ci := range adds {
 			n++
 			args := ci.Common().Args
-			checkSnapshot(p, r, fn, args[2], "MessageIndexEntry.Offset", []string{"mcap.Writer.writeRecord"}, false, ci, isSink)
+			checkSnapshot(p, r, ci.Parent(), args[2], "MessageIndexEntry.Offset", []string{"mcap.Writer.writeRecord"}, false, ci, isSink)
 			if !loadOfField(args[1], "Message", "LogTime") {
-				r.violated("C05.b", funcName(fn), "MessageIndexEntry.Timestamp", p.pos(ci.Pos()), "the message index entry does not carry the message's log time")
+				r.violated("C05.b", funcName(ci.Parent()), "MessageIndexEntry.Timestamp", p.pos(ci.Pos()), "the message index entry does not carry the message's log time")
 			}
 		}
 		if n == 0 {
@@ -592,116 +596,213 @@ func checkFlush(p *Program, r *Result) {
 			r.violated("C05.d", fname, pr.what, p.pos(calls[ib].in.Pos()), "the value is reset before it is captured for the chunk header")
 		}
 	}
+	acc := p.chunkAcc()
 	countGuarded := func(b *ssa.BasicBlock) bool {
 		for d := b; d != nil; d = d.Idom() {
 			if iff, isIf := d.Instrs[len(d.Instrs)-1].(*ssa.If); isIf && d != b {
-				if bo, isB := iff.Cond.(*ssa.BinOp); isB && (loadOfField(bo.X, "Writer", "currentChunkMessageCount") || loadOfField(bo.Y, "Writer", "currentChunkMessageCount")) {
+				if bo, isB := iff.Cond.(*ssa.BinOp); isB && (acc.isCountLoad(bo.X) || acc.isCountLoad(bo.Y)) {
 					return true
 				}
 			}
 		}
 		return false
 	}
-	// chunk times: running values when the chunk has messages, the constant 0 otherwise
-	for _, tf := range [][2]string{{"MessageStartTime", "currentChunkStartTime"}, {"MessageEndTime", "currentChunkEndTime"}} {
-		stores := regionStores(region, "Chunk", tf[0])
-		// form 2: zero by default (literal / explicit 0) and the running value assigned under the message-count test
-		if len(stores) >= 1 {
-			allOK, sawRun := true, false
-			for _, st := range stores {
-				if c, isC := st.Val.(*ssa.Const); isC && c.Value != nil && c.Value.String() == "0" {
-					continue
-				}
-				if loadOfField(st.Val, "Writer", tf[1]) && countGuarded(st.Block()) {
-					sawRun = true
-					continue
-				}
-				if _, isPhi := st.Val.(*ssa.Phi); !isPhi {
-					allOK = false
-				}
-			}
-			onlyConstAndGuarded := allOK && sawRun
-			if onlyConstAndGuarded {
-				hasPhi := false
-				for _, st := range stores {
-					if _, isPhi := st.Val.(*ssa.Phi); isPhi {
-						hasPhi = true
-					}
-				}
-				if !hasPhi {
-					r.held("C05.d", fname, "Chunk."+tf[0]+" is the running value or 0 for a message-less chunk", p.pos(stores[0].Pos()), "0 by default, w."+tf[1]+" under the message-count test")
-					continue
-				}
-			}
+	// chunk times: running values when the chunk has messages, the constant 0 otherwise. classify gives, for a value
+	// that becomes a chunk header time: zero (the constant 0 on some path), run (the running accumulator, read under the
+	// message-count test, on some path), bad (anything else).
+	var classify func(v ssa.Value, run fieldID, at *ssa.BasicBlock, depth int) (zero, running, bad bool)
+	classify = func(v ssa.Value, run fieldID, at *ssa.BasicBlock, depth int) (zero, running, bad bool) {
+		if depth > 4 {
+			return false, false, true
 		}
+		switch x := v.(type) {
+		case *ssa.Const:
+			if x.Value != nil && x.Value.String() == "0" {
+				return true, false, false
+			}
+			return false, false, true
+		case *ssa.Phi:
+			for i, e := range x.Edges {
+				z, rn, b := classify(e, run, x.Block().Preds[i], depth+1)
+				zero, running, bad = zero || z, running || rn, bad || b
+			}
+			return
+		case *ssa.Extract:
+			call, ok := x.Tuple.(*ssa.Call)
+			if !ok {
+				return false, false, true
+			}
+			g := call.Call.StaticCallee()
+			if g == nil || g.Blocks == nil {
+				return false, false, true
+			}
+			n := 0
+			for _, in := range instrsOf(g) {
+				if ret, ok := in.(*ssa.Return); ok && x.Index < len(ret.Results) {
+					n++
+					z, rn, b := classify(ret.Results[x.Index], run, ret.Block(), depth+1)
+					zero, running, bad = zero || z, running || rn, bad || b
+				}
+			}
+			if n == 0 {
+				bad = true
+			}
+			return
+		}
+		if loadOfField(v, run.t, run.f) {
+			// read under the message-count test: the block itself, or (for a phi edge) the predecessor, is guarded
+			if countGuarded(at) || isCountTestBlock(at, acc) {
+				return false, true, false
+			}
+			return false, false, true
+		}
+		return false, false, true
+	}
+	for _, tf := range []struct {
+		hdr string
+		run fieldID
+	}{{"MessageStartTime", acc.start}, {"MessageEndTime", acc.end}} {
+		stores := regionStores(region, "Chunk", tf.hdr)
+		construct := "Chunk." + tf.hdr + " is the running value or 0 for a message-less chunk"
+		if len(stores) == 0 {
+			continue
+		}
+		zero, running, bad := false, false, false
 		for _, st := range stores {
-			phi, ok := st.Val.(*ssa.Phi)
-			good := false
-			if ok && len(phi.Edges) == 2 {
-				var zero, run bool
-				for _, e := range phi.Edges {
-					if c, isC := e.(*ssa.Const); isC && c.Value != nil && c.Value.String() == "0" {
-						zero = true
-					}
-					if loadOfField(e, "Writer", tf[1]) {
-						run = true
-					}
-				}
-				// controlled by currentChunkMessageCount
-				ctl := false
-				for _, pr := range phi.Block().Preds {
-					for d := pr; d != nil; d = d.Idom() {
-						if iff, isIf := d.Instrs[len(d.Instrs)-1].(*ssa.If); isIf {
-							if b, isB := iff.Cond.(*ssa.BinOp); isB && (loadOfField(b.X, "Writer", "currentChunkMessageCount") || loadOfField(b.Y, "Writer", "currentChunkMessageCount")) {
-								ctl = true
-							}
-						}
-					}
-				}
-				good = zero && run && ctl
-			}
-			if good {
-				r.held("C05.d", fname, "Chunk."+tf[0]+" is the running value or 0 for a message-less chunk", p.pos(st.Pos()), "phi(0, w."+tf[1]+") under the message-count test")
-			} else {
-				r.violated("C05.d", fname, "Chunk."+tf[0]+" is the running value or 0 for a message-less chunk", p.pos(st.Pos()),
-					"the chunk header time must be the running "+tf[1]+" when the chunk holds messages and 0 otherwise")
-			}
+			z, rn, b := classify(st.Val, tf.run, st.Block(), 0)
+			zero, running, bad = zero || z, running || rn, bad || b
+		}
+		if zero && running && !bad {
+			r.held("C05.d", fname, construct, p.pos(stores[0].Pos()), "0 for a message-less chunk, "+tf.run.t+"."+tf.run.f+" under the message-count test")
+		} else {
+			r.violated("C05.d", fname, construct, p.pos(stores[0].Pos()),
+				"the chunk header time must be the running "+tf.run.f+" when the chunk holds messages and 0 otherwise")
 		}
 	}
 	// per-chunk accumulators are re-initialised after a flush (or guarded by a first-message-in-chunk test)
-	for _, f := range []string{"currentChunkStartTime", "currentChunkEndTime", "currentChunkMessageCount"} {
+	for _, f := range []fieldID{acc.start, acc.end, acc.count} {
 		reset := false
 		for _, rf := range region {
-			for _, st := range fieldStores(rf, "Writer", f) {
+			for _, st := range fieldStores(rf, f.t, f.f) {
 				if _, isC := st.Val.(*ssa.Const); isC {
 					reset = true
 				}
 			}
+			// the accumulators live in a small state struct that is replaced as a whole by a fresh value
+			if f.t != "Writer" {
+				for _, in := range instrsOf(rf) {
+					st, ok := in.(*ssa.Store)
+					if !ok {
+						continue
+					}
+					if _, _, _, isField := fieldRef(st.Addr); !isField {
+						continue
+					}
+					nt, _ := structOf(st.Val.Type())
+					if nt == nil || nt.Obj().Name() != f.t {
+						continue
+					}
+					if freshStateValue(st.Val, f) {
+						reset = true
+					}
+				}
+			}
 		}
 		firstMsg := false
-		if f != "currentChunkMessageCount" {
-			for _, st := range fieldStores(wm, "Writer", f) {
-				// guarded by a condition mentioning currentChunkMessageCount == 1
-				for _, pr := range st.Block().Preds {
-					for d := pr; d != nil; d = d.Idom() {
-						if iff, isIf := d.Instrs[len(d.Instrs)-1].(*ssa.If); isIf {
-							if b, isB := iff.Cond.(*ssa.BinOp); isB && (loadOfField(b.X, "Writer", "currentChunkMessageCount") || loadOfField(b.Y, "Writer", "currentChunkMessageCount")) {
-								firstMsg = true
+		if f != acc.count {
+			for _, wf := range regionOf(p, wm, 3) {
+				for _, st := range fieldStores(wf, f.t, f.f) {
+					for _, pr := range st.Block().Preds {
+						for d := pr; d != nil; d = d.Idom() {
+							if iff, isIf := d.Instrs[len(d.Instrs)-1].(*ssa.If); isIf {
+								if b, isB := iff.Cond.(*ssa.BinOp); isB && (acc.isCountLoad(b.X) || acc.isCountLoad(b.Y)) {
+									firstMsg = true
+								}
 							}
 						}
 					}
 				}
 			}
 		}
-		construct := "per-chunk accumulator w." + f + " starts fresh for the next chunk"
+		construct := "per-chunk accumulator w." + legacyAccName(acc, f) + " starts fresh for the next chunk"
 		_ = fnOrig
 		if reset || firstMsg {
 			r.held("C05.d", fname, construct, p.pos(fn.Pos()), map[bool]string{true: "re-initialised after the chunk is written", false: "first message of a chunk overwrites it"}[reset])
 		} else {
 			r.violated("C05.d", fname, construct, p.pos(fn.Pos()),
-				"w."+f+" is neither re-initialised after a flush nor overwritten by the first message of the next chunk; a later chunk's header and index would report a time range (or count) inherited from earlier chunks")
+				f.t+"."+f.f+" is neither re-initialised after a flush nor overwritten by the first message of the next chunk; a later chunk's header and index would report a time range (or count) inherited from earlier chunks")
 		}
 	}
+}
+
+// legacyAccName keeps obligation keys stable across renames of the accumulator fields.
+func legacyAccName(acc *chunkAccRoles, f fieldID) string {
+	switch f {
+	case acc.start:
+		return "currentChunkStartTime"
+	case acc.end:
+		return "currentChunkEndTime"
+	}
+	return "currentChunkMessageCount"
+}
+
+// isCountTestBlock: b ends in a test of the message count (the phi edge comes straight from the test).
+func isCountTestBlock(b *ssa.BasicBlock, acc *chunkAccRoles) bool {
+	if b == nil || len(b.Instrs) == 0 {
+		return false
+	}
+	if iff, ok := b.Instrs[len(b.Instrs)-1].(*ssa.If); ok {
+		if bo, ok := iff.Cond.(*ssa.BinOp); ok && (acc.isCountLoad(bo.X) || acc.isCountLoad(bo.Y)) {
+			return true
+		}
+	}
+	return false
+}
+
+// freshStateValue: v is a newly built state struct (constructor result or composite literal) in which field f holds a
+// constant, not a copy of live state.
+func freshStateValue(v ssa.Value, f fieldID) bool {
+	switch x := v.(type) {
+	case *ssa.Call:
+		g := x.Call.StaticCallee()
+		if g == nil || g.Blocks == nil {
+			return false
+		}
+		for _, in := range instrsOf(g) {
+			if ret, ok := in.(*ssa.Return); ok {
+				if len(ret.Results) != 1 || !freshStateValue(ret.Results[0], f) {
+					return false
+				}
+			}
+		}
+		return true
+	case *ssa.UnOp:
+		// load of a local composite literal: every store into field f of the alloc is a constant (absent = zero value)
+		al, ok := x.X.(*ssa.Alloc)
+		if !ok || x.Op != token.MUL {
+			return false
+		}
+		for _, ref := range *al.Referrers() {
+			fa, ok := ref.(*ssa.FieldAddr)
+			if !ok {
+				continue
+			}
+			if _, fl, _, ok := fieldRef(fa); !ok || fl != f.f {
+				continue
+			}
+			for _, r2 := range *fa.Referrers() {
+				if st, ok := r2.(*ssa.Store); ok && st.Addr == ssa.Value(fa) {
+					if _, isC := st.Val.(*ssa.Const); !isC {
+						return false
+					}
+				}
+			}
+		}
+		return true
+	case *ssa.Const:
+		return true
+	}
+	return false
 }
 
 // checkSummaryOffsetsComplete: C05.e — in writeSummarySection, every path that wrote summary records and returns
